@@ -242,6 +242,22 @@ def shard(ctx, acc):
         acc.sample(W.brief_case(case))
         if probs:
             acc.violation(probs[0][0], probs[:4], case)
+    # ROOT histories of C12 (objects outside the roots, moves across the boundary, a declined folder) with 1-3 stops at
+    # random step boundaries and the cursor intact: what was written off as irrelevant and becomes relevant again must
+    # survive the restart (C12's own oracle decides: peer tree = model of the inside operations)
+    from props import c12 as C12
+    for i in F.indices(ctx, plan["cases"] // 6):
+        case = C12.make_case(ctx.seed, i)
+        rng = random.Random("%s:C06root:%d" % (ctx.seed, i))
+        case = with_restarts(case, rng, "intact")
+        case["c12"] = True
+        probs = C12.run(case, acc)
+        if probs is None:
+            continue
+        acc.count("root_cases_with_restarts")
+        acc.count("restarts", len([e for e in case["sched"] if e[0] == "R"]))
+        if probs:
+            acc.violation("root:" + probs[0][0], probs[:4], case)
 
 
 def conclusive(acc, tier):
@@ -254,4 +270,11 @@ def conclusive(acc, tier):
 
 
 coverage_extra = E.coverage_extra
-replay = E.replay_with(lambda c: run(c, count=False))
+def _replay_one(c):
+    if c.get("c12"):
+        from props import c12 as C12
+        return C12.run(c, count=False)
+    return run(c, count=False)
+
+
+replay = E.replay_with(_replay_one)
